@@ -52,7 +52,7 @@ func datadogExpected(w *workload) (out []rec, perSeries []int) {
 					add(s.Name+".histogram", sortedJoin(append(append([]string(nil), s.Tags...), leTag(b)), ","), float64(cnt), "timer.histogram")
 				}
 				for _, suffix := range allTimerSubs() {
-					out = append(out, rec{Name: s.Name + "." + suffix, Tags: tg, Host: s.Source, Class: gsdSummary, Ser: i, Forbidden: true})
+					out = append(out, rec{Name: s.Name + "." + suffix, Tags: tg, Host: s.Source, Class: gsdClass(s), Ser: i, Forbidden: true})
 				}
 				continue
 			}
